@@ -574,8 +574,12 @@ const _: () = {
             if self.section.is_empty() {
                 return Ok(None)
             }
-            if !self.first && self.section.first() == Some(&b',') {
-                return Err(serde::de::Error::custom("missing ,"))
+            if !self.first {
+                /* `self.section` starts with the `,` that ended the previous element */
+                let Some((b',', rest)) = self.section.split_first() else {
+                    return Err(serde::de::Error::custom("missing ,"))
+                };
+                self.section = rest;
             }
             self.first = false;
 
@@ -583,7 +587,11 @@ const _: () = {
             let (element, remaining) = self.section.split_at(size);
             self.section = remaining;
 
-            seed.deserialize(element.into_deserializer()).map(Some)
+            /* an element is written like a single value: read it like one */
+            seed.deserialize(&mut URLEncodedDeserializer {
+                input: element,
+                side:  ParsingSide::Value,
+            }).map(Some)
         }
     }
 };
